@@ -81,13 +81,17 @@ func preHash(id string, salt []byte) uint32 {
 // Add a handshake with this key ID and salt to the cache.
 // Returns false if it is already present.
 func (c *ReplayCache) Add(id string, salt []byte) bool {
-	if c == nil || c.capacity == 0 {
+	if c == nil {
 		// Cache is disabled, so every salt is new.
 		return true
 	}
 	hash := preHash(id, salt)
 	c.mutex.Lock()
 	defer c.mutex.Unlock()
+	if c.capacity == 0 {
+		// Cache is disabled, so every salt is new.
+		return true
+	}
 	if _, ok := c.active[hash]; ok {
 		// Fast replay: `salt` is already in the active set.
 		return false
